@@ -23,6 +23,16 @@ Anchors:
 * `analysis/morpheme.rs`: `begin`/`end` (`to_orig_byte_idx`: the character route) and `surface`
   (`orig_slice(bytes_range)`: the byte route, with the two `is_char_boundary` debug assertions).
 
+* `analysis/node.rs`: `concat_nodes` (JoinNumericPlugin) and `concat_oov_nodes`
+  (JoinKatakanaOovPlugin) on the fields splitting observes: the joined node takes the character and
+  byte range of the first/last part, a new word id (`WordId::INVALID` resp. the largest id of the
+  parts re-based to word number `MAX_WORD`), `head_word_length` = the sum of the parts' (u16) and
+  `..Default::default()` for everything else — in particular NO split units, whatever the parts declare.
+  WHICH runs are joined is C14/C15's subject and enters as data (the grouping observed on the real
+  paths of dictionaries loaded with 0, 1 and all path-rewrite plugins).
+* `analysis/mlist.rs`: the deprecated `MorphemeList::split` / `Morpheme::split` (the units, or the
+  node itself when nothing was split).
+
 Only the fields that splitting observes are kept: key byte length and the two split lists.
 -/
 namespace Split
@@ -264,6 +274,112 @@ def resolvePath (lex : Lex) (s : Subset) (c2b : List Nat) : List RawNode → Out
     | .err k => .err k
     | .panic w => .panic w
 
+/-! ## nodes made by the path-rewrite plugins (`concat_nodes`, `concat_oov_nodes`) -/
+
+/-- which helper made a joined node: `concat_nodes` (JoinNumericPlugin) or `concat_oov_nodes`
+(JoinKatakanaOovPlugin) -/
+inductive JoinKind where
+  | num | kata
+deriving Repr, DecidableEq
+
+/-- `WordId::INVALID` -/
+def INVALID_ID : Nat := 4294967295
+
+/-- the loop `head_word_length += data.head_word_length` (a `u16`; the harness is built with overflow
+checks, so an overflow panics — a release build would wrap) -/
+def sumHwl : List Node → Nat → Outcome Nat
+  | [], acc => .ok acc
+  | n :: rest, acc =>
+    if acc + n.info.hwl ≥ 65536 then .panic "attempt to add with overflow"
+    else sumHwl rest (acc + n.info.hwl)
+
+/-- `concat_oov_nodes`: `wid = wid.max(node.word_id())` starting from `WordId::from_raw(0)`, then
+`WordId::new(wid.dic(), WordId::MAX_WORD)` unless the largest id is an OOV id -/
+def kataWid (parts : List Node) : Nat :=
+  let w := parts.foldl (fun acc n => max acc n.wid) 0
+  if isOov w then w else mkId (dicOf w) WORD_MASK
+
+def joinWid (k : JoinKind) (parts : List Node) : Nat :=
+  match k with
+  | .num => INVALID_ID
+  | .kata => kataWid parts
+
+/-- `concat_nodes(path, begin, end, _)` / `concat_oov_nodes(path, begin, end, _)` on `parts =
+path[begin..end]`: `begin >= end` is `Err(InvalidRange)`; the new node runs from the first part's
+begin (`as u16`) to the last part's end, bytes likewise (copied, already u16); word info =
+`{surface.., head_word_length: Σ, pos_id, .., ..Default::default()}`: both split lists EMPTY. -/
+def joinNodes (k : JoinKind) (parts : List Node) : Outcome Node :=
+  match parts, parts.getLast? with
+  | first :: _, some last =>
+    match sumHwl parts 0 with
+    | .ok h => .ok ⟨asU16 first.cb, asU16 last.ce, first.bb, last.be, joinWid k parts, ⟨h, [], []⟩⟩
+    | .err e => .err e
+    | .panic w => .panic w
+  | _, _ => .err "InvalidRange"
+
+/-- an element of the path after the FIRST path-rewrite plugin: a node of `resolve_best_path` left
+alone (`k = none`, one part) or the parts the plugin joined -/
+structure G1 where
+  k : Option JoinKind
+  parts : List RawNode
+deriving Repr
+
+/-- an element of the path after the SECOND path-rewrite plugin (its parts are elements of the path
+after the first one) -/
+structure G2 where
+  k : Option JoinKind
+  parts : List G1
+deriving Repr
+
+/-- a group that was left alone is its only member; a joined group is `joinNodes` of its members -/
+def closeGroup (k : Option JoinKind) (ns : List Node) : Outcome Node :=
+  match k with
+  | some k => joinNodes k ns
+  | none =>
+    match ns with
+    | [n] => .ok n
+    | _ => .err "bad-group"
+
+def resolveG1 (lex : Lex) (s : Subset) (c2b : List Nat) (g : G1) : Outcome Node :=
+  match resolvePath lex s c2b g.parts with
+  | .ok ns => closeGroup g.k ns
+  | .err k => .err k
+  | .panic w => .panic w
+
+def resolveG1s (lex : Lex) (s : Subset) (c2b : List Nat) : List G1 → Outcome (List Node)
+  | [] => .ok []
+  | g :: rest =>
+    match resolveG1 lex s c2b g with
+    | .ok n =>
+      match resolveG1s lex s c2b rest with
+      | .ok ns => .ok (n :: ns)
+      | .err k => .err k
+      | .panic w => .panic w
+    | .err k => .err k
+    | .panic w => .panic w
+
+def resolveG2 (lex : Lex) (s : Subset) (c2b : List Nat) (g : G2) : Outcome Node :=
+  match resolveG1s lex s c2b g.parts with
+  | .ok ns => closeGroup g.k ns
+  | .err k => .err k
+  | .panic w => .panic w
+
+/-- `resolve_best_path` followed by the path-rewrite plugins (the joins entered as grouping) -/
+def resolveGroups (lex : Lex) (s : Subset) (c2b : List Nat) : List G2 → Outcome (List Node)
+  | [] => .ok []
+  | g :: rest =>
+    match resolveG2 lex s c2b g with
+    | .ok n =>
+      match resolveGroups lex s c2b rest with
+      | .ok ns => .ok (n :: ns)
+      | .err k => .err k
+      | .panic w => .panic w
+    | .err k => .err k
+    | .panic w => .panic w
+
+/-- a path no plugin touched -/
+def plainGroups (raws : List RawNode) : List G2 := raws.map (fun r => ⟨none, [⟨none, [r]⟩]⟩)
+
 /-- the split list of a node for a mode (`a_unit_split` / `b_unit_split`) -/
 def splitsOf (n : Node) : Mode → List Nat
   | .A => n.info.a
@@ -362,6 +478,15 @@ def splitInto (cx : Ctx) (m : Mode) (n : Node) : Outcome (Bool × List Node) :=
     | .ok us => .ok (true, us)
     | .err k => .err k
     | .panic w => .panic w
+
+/-- the deprecated `MorphemeList::split(mode, index)` / `Morpheme::split(mode)`: a new list with the
+units, or with a copy of the node itself when `split_into` reported `false` -/
+def splitDeprecated (cx : Ctx) (m : Mode) (n : Node) : Outcome (List Node) :=
+  match splitInto cx m n with
+  | .ok (true, us) => .ok us
+  | .ok (false, _) => .ok [n]
+  | .err k => .err k
+  | .panic w => .panic w
 
 /-- which `MorphemeList::lookup` is modelled: the code as it stands leaves `InputPart.subset` of the
 list untouched (`cur`); the proposed repair records the subset of the call in it (`fix`) -/
@@ -480,14 +605,16 @@ def raw? (s : List Char) : Option RawNode :=
   | _ => none
 
 /-- what the harness observes of one morpheme: node ranges, word id, `begin()`/`end()` (character
-route) and the range of `surface()` (byte route; `P` when it panics) -/
+route), the range of `surface()` (byte route; `P` when it panics) and the loaded word info as far as
+splitting looks at it: `head_word_length()`, `a_unit_split()`, `b_unit_split()` -/
 def showNode (b2c c2b m2o : List Nat) (n : Node) : Outcome String :=
   match origIdx c2b m2o n.cb, origIdx c2b m2o n.ce with
   | .ok ob, .ok oe =>
     let sf := match surfaceRange b2c c2b m2o n.bb n.be with
       | .ok (sb, se) => toString sb ++ ":" ++ toString se
       | _ => "P"
-    .ok (joinWith ":" [toString n.cb, toString n.ce, toString n.bb, toString n.be, toString n.wid, toString ob, toString oe, sf])
+    .ok (joinWith ":" [toString n.cb, toString n.ce, toString n.bb, toString n.be, toString n.wid, toString ob, toString oe, sf,
+      toString n.info.hwl, joinWith "_" (n.info.a.map toString), joinWith "_" (n.info.b.map toString)])
   | .panic w, _ => .panic w
   | _, .panic w => .panic w
   | .err k, _ => .err k
@@ -503,17 +630,56 @@ def showNodes (b2c c2b m2o : List Nat) : List Node → Outcome (List String)
     | .err k, _ => .err k
     | _, .err k => .err k
 
+def kind? (s : List Char) : Option JoinKind :=
+  match s with
+  | ['N'] => some .num
+  | ['K'] => some .kata
+  | _ => none
+
+/-- `cb:ce:wid:syn` (left alone) or `N=part+part…` / `K=part+part…` (joined by the first plugin) -/
+def g1? (s : List Char) : Option G1 :=
+  match splitOn '=' s with
+  | [body] => (raw? body).map (fun r => ⟨none, [r]⟩)
+  | [k, body] =>
+    match kind? k, allSome ((items '+' body).map raw?) with
+    | some k, some ps => some ⟨some k, ps⟩
+    | _, _ => none
+  | _ => none
+
+/-- a stage-1 element (left alone by the second plugin) or `N@g1~g1…` / `K@g1~g1…` -/
+def g2? (s : List Char) : Option G2 :=
+  match splitOn '@' s with
+  | [body] => (g1? body).map (fun g => ⟨none, [g]⟩)
+  | [k, body] =>
+    match kind? k, allSome ((items '~' body).map g1?) with
+    | some k, some gs => some ⟨some k, gs⟩
+    | _, _ => none
+  | _ => none
+
+def groups? (s : List Char) : Option (List G2) := allSome ((items ',' s).map g2?)
+
+/-- `split_into` answer of one node: `T<units>` / `F`, `E`, `P` -/
+def showSplitInto (cx : Ctx) (m2o : List Nat) (odm : Mode) (n : Node) : String :=
+  match splitInto cx odm n with
+  | .ok (flag, us) =>
+    match showNodes cx.b2c cx.c2b m2o us with
+    | .ok ss => (if flag then "T" else "F") ++ joinWith "," ss
+    | _ => "P"
+  | .err _ => "E"
+  | .panic _ => "P"
+
 def handleSplit (toks : List (List Char)) : String :=
   match (kv? toks "opsd").bind ops?, (kv? toks "opsc").bind ops?, (kv? toks "odm").bind mode?,
         (kv? toks "lex").bind lex?, (kv? toks "b2c").bind natList?, (kv? toks "c2b").bind natList?,
-        (kv? toks "m2o").bind natList?, (kv? toks "path").bind (fun p => allSome ((items ',' p).map raw?)),
-        (kv? toks "pathc").bind (fun p => allSome ((items ',' p).map raw?)) with
-  | some opsd, some opsc, some odm, some lex, some b2c, some c2b, some m2o, some raws, some rawsc =>
+        (kv? toks "m2o").bind natList?, (kv? toks "path").bind groups?,
+        (kv? toks "pathc").bind groups? with
+  | some opsd, some opsc, some odm, some lex, some b2c, some c2b, some m2o, some grps, some grpsc =>
     let v : Variant := if (kv? toks "d6fix") == some ['1'] then .d6fix else .cur
     let td := (runOps opsd (create .C) []).1
     let tc := (runOps opsc (create .C) []).1
+    -- `resolve_best_path`, the path-rewrite plugins (grouping entered), `split_path`
     let direct : Outcome (List Node) :=
-      match resolvePath lex td.subset c2b raws with
+      match resolveGroups lex td.subset c2b grps with
       | .ok p => splitPath ⟨v, lex, td.subset, b2c, c2b⟩ td.mode p
       | .err k => .err k
       | .panic w => .panic w
@@ -525,21 +691,47 @@ def handleSplit (toks : List (List Char)) : String :=
         | _ => "PANIC"
       | .err k => "err:" ++ k
       | .panic _ => "PANIC"
-    let ods := rawsc.map (fun r =>
-      match resolveNode lex tc.subset c2b r with
+    let cxc : Ctx := ⟨v, lex, tc.subset, b2c, c2b⟩
+    -- the mode C list as the harness reads it back (every token with its loaded word info)
+    let cstr :=
+      match resolveGroups lex tc.subset c2b grpsc with
+      | .ok ns =>
+        match showNodes b2c c2b m2o ns with
+        | .ok ss => joinWith "," ss
+        | _ => "PANIC"
+      | .err k => "err:" ++ k
+      | .panic _ => "PANIC"
+    let cnodes : List (Outcome Node) := grpsc.map (resolveG2 lex tc.subset c2b)
+    let ods := cnodes.map (fun r =>
+      match r with
+      | .ok n => showSplitInto cxc m2o odm n
+      | .err _ => "E"
+      | .panic _ => "P")
+    -- the deprecated `Morpheme::split`: the units, or the node itself
+    let dps := cnodes.map (fun r =>
+      match r with
       | .ok n =>
-        match splitInto ⟨v, lex, tc.subset, b2c, c2b⟩ odm n with
-        | .ok (flag, us) =>
+        match splitDeprecated cxc odm n with
+        | .ok us =>
           match showNodes b2c c2b m2o us with
-          | .ok ss => (if flag then "T" else "F") ++ joinWith "," ss
+          | .ok ss => joinWith "," ss
           | _ => "P"
         | .err _ => "E"
         | .panic _ => "P"
       | .err _ => "E"
       | .panic _ => "P")
+    -- second level: `split_into` of every sub-token that the first call returned (same list subset)
+    let od2 := cnodes.map (fun r =>
+      match r with
+      | .ok n =>
+        match splitInto cxc odm n with
+        | .ok (_, us) => joinWith "|" (us.map (showSplitInto cxc m2o odm))
+        | _ => "-"
+      | _ => "-")
     -- `collect_results` / `swap_result`: `*subset = self.subset` — the list carries the subset of the
     -- tokenizer at the time of the call; `split_into` reads the units with it (`self.subset()`)
-    "ok direct=" ++ dstr ++ " ls=" ++ toString (toBits tc.subset) ++ " od=" ++ joinWith ";" ods
+    "ok direct=" ++ dstr ++ " c=" ++ cstr ++ " ls=" ++ toString (toBits tc.subset) ++ " od=" ++ joinWith ";" ods
+      ++ " dp=" ++ joinWith ";" dps ++ " od2=" ++ joinWith ";" od2
   | _, _, _, _, _, _, _, _, _ => "bad-case"
 
 /-- `C09 lookup ls=<list subset before> sl=<subset of the call> odm=<mode> nodes=<ids found> ce= be=` + lexicon and
